@@ -35,28 +35,47 @@ Local Open Scope string_scope. Local Open Scope N_scope.`
 		}
 	}
 	gen(nil, 4)
-	c.Res.Extra["unescape_texts_total"] = 2 * len(texts)
+	c.Res.Extra["unescape_texts_total"] = 5 * len(texts)
 	n := 0
 	for i, t := range texts {
-		for pos := 0; pos < 2; pos++ {
-			if !big && (uint64(2*i+pos)*2654435761+c.Seed)%9 != 0 {
+		for pos := 0; pos < 5; pos++ {
+			if !big && (uint64(5*i+pos)*2654435761+c.Seed)%9 != 0 {
 				continue
 			}
 			n++
 			raw := "k" + t // the text after `return` / `<-` up to the end of the line, blanks included
 			var src, gpos string
-			if pos == 0 {
+			nameKey := ""
+			switch pos {
+			case 0:
 				src = "App:\n    E:\n        return " + raw + "\n"
 				gpos = "PRet"
-			} else {
+			case 1:
 				src = "App:\n    E:\n        . <- " + raw + "\n"
 				gpos = "PCall"
+			case 2: // the name of an application (free text up to the colon)
+				src = raw + ":\n    ...\n"
+				gpos, nameKey = "PApp", "app="
+			case 3: // the target of a call
+				src = "App:\n    E:\n        " + raw + " <- x\n"
+				gpos, nameKey = "PTarget", "target="
+			default: // the application a mixin names
+				src = "App:\n    -|> " + raw + "\n"
+				gpos, nameKey = "PMixin", "mixin="
 			}
 			cs := caseT{Stream: "unescape-form", Files: map[string]string{"root.sysl": src}, Root: "root.sysl", Payload: true,
 				Note: fmt.Sprintf("statement %q", strings.TrimSpace(strings.Split(src, "\n")[2]))}
 			r := do(cs)
 			obs := ""
 			switch {
+			case r.Outcome == "model" && nameKey != "":
+				obs = "UNoStatement"
+				for _, kvp := range strings.Split(r.Names, ";") {
+					if strings.HasPrefix(kvp, nameKey) {
+						b, _ := hex.DecodeString(strings.TrimPrefix(kvp, nameKey))
+						obs = "UModel " + common.GBytes(string(b))
+					}
+				}
 			case r.Outcome == "model":
 				b, _ := hex.DecodeString(r.Payload)
 				obs = "UModel " + common.GBytes(string(b))
@@ -72,7 +91,7 @@ Local Open Scope string_scope. Local Open Scope N_scope.`
 			default:
 				continue // crash / hang: judged by the oracle
 			}
-			c.Hist("unescape-obs:" + strings.Fields(obs)[0])
+			c.Hist("unescape-obs:" + gpos + ":" + strings.Fields(obs)[0])
 			uc.Add(fmt.Sprintf("(%s, %s, %s)", gpos, common.GString(raw), obs), cs)
 			if n%300 == 1 {
 				c.Sample(map[string]interface{}{"stream": "unescape-form", "source": src, "outcome": r.Outcome, "code": r.Code, "payload_hex": r.Payload})
